@@ -1,6 +1,7 @@
 package main
 
 import (
+	"go/ast"
 	"encoding/json"
 	"flag"
 	"fmt"
@@ -268,6 +269,11 @@ func (e *Engine) funcsForProperty(prop string) []string {
 			}
 			// closures are analysed inline with their parent unless they have a stand-alone (modular) contract
 			if fn.Parent() != nil && !strings.HasPrefix(n, "var:") && (e.cs.Funcs[n] == nil || e.cs.Funcs[n].First("modular") == nil) {
+				continue
+			}
+			// an unexported helper without a contract that is only ever called directly inside the package is verified
+			// where it is inlined (with its callers' locksets); on its own it has no caller context
+			if e.cs.Funcs[n] == nil && fn.Parent() == nil && !ast.IsExported(fn.Name()) && e.onlyCalledDirectly(fn) {
 				continue
 			}
 			all = append(all, n)
